@@ -98,7 +98,7 @@ def run(ctx: Ctx) -> None:
     for exc, init_args in (("H2ProtocolAssumedError", []), ("H2CProtocolRequiredError", ["error.headers", "error.settings"])):
         h = hmap.get(exc)
         ctx.need(h is not None, f"ProtocolWrapper.handle: no except {exc} arm")
-        name = h.name
+        name = h.name or 'error'
         body_calls = [c for s in h.body for c in ast.walk(s) if isinstance(c, ast.Call)]
         new = [c for c in body_calls if call_name(c) == "H2Protocol"]
         init = [c for c in body_calls if call_name(c) == "self.protocol.initiate"]
